@@ -20,6 +20,7 @@ use barter_instrument::{
     exchange::ExchangeId,
     instrument::{
         Instrument, InstrumentIndex,
+        name::InstrumentNameInternal,
         kind::{
             InstrumentKind,
             future::FutureContract,
@@ -173,9 +174,11 @@ impl Ik {
             settle_quote: v["settle_quote"].as_bool().unwrap_or(true),
         }
     }
-    fn coq(&self) -> String {
+    fn coq_meta(&self, restores: &[bool], rt_ok: bool) -> String {
         let size = if self.kind == 0 { Decimal::ONE } else { self.size };
-        pair(&n(self.kind.min(3) as u128), &dec_q(size))
+        let idx: Vec<String> =
+            restores.iter().enumerate().filter(|(_, r)| **r).map(|(k, _)| n(k as u128 + 1)).collect();
+        format!("(mkMeta {} {} {} {})", n(self.kind.min(3) as u128), dec_q(size), list(&idx), b(rt_ok))
     }
     fn tag(&self) -> String {
         format!(
@@ -189,8 +192,8 @@ impl Ik {
 fn new_instrument_state(
     inst: u64,
     ik: Ik,
-) -> InstrumentState<DefaultInstrumentMarketData, ExchangeId, &'static str, InstrumentIndex> {
-    let settle: &'static str = if ik.settle_quote { "usdt" } else { "usdc" };
+) -> InstrumentState<DefaultInstrumentMarketData, ExchangeId, String, InstrumentIndex> {
+    let settle: String = if ik.settle_quote { "usdt".to_string() } else { "usdc".to_string() };
     let expiry = time_of(1_900_000_000_000);
     let kind = match ik.kind {
         0 => InstrumentKind::Spot,
@@ -211,7 +214,7 @@ fn new_instrument_state(
             if ik.kind == 0 { ExchangeId::BinanceSpot } else { ExchangeId::Okx },
             "okx_btc_usdt_x",
             "BTCUSDTX",
-            Underlying::new("btc", "usdt"),
+            Underlying::new("btc".to_string(), "usdt".to_string()),
             InstrumentQuoteAsset::UnderlyingQuote,
             kind,
             None,
@@ -221,6 +224,60 @@ fn new_instrument_state(
         Orders::default(),
         DefaultInstrumentMarketData::default(),
     )
+}
+
+/// persist / restore: serialise to JSON and read back. Returns the restored value (the original
+/// if it cannot even be read back) and whether it equals the original.
+fn round_trip<T>(x: &T) -> (T, bool)
+where
+    T: serde::Serialize + serde::de::DeserializeOwned + PartialEq + Clone,
+{
+    let restored = serde_json::to_string(x).ok().and_then(|s| serde_json::from_str::<T>(&s).ok());
+    match restored {
+        Some(y) => {
+            let same = y == *x;
+            (y, same)
+        }
+        None => (x.clone(), false),
+    }
+}
+
+/// the same position under another instrument key type (all fields but the key)
+fn same_position<A, B>(a: &Option<Position<QuoteAsset, A>>, b: &Option<Position<QuoteAsset, B>>) -> bool {
+    match (a, b) {
+        (None, None) => true,
+        (Some(a), Some(b)) => {
+            a.side == b.side
+                && a.price_entry_average == b.price_entry_average
+                && a.quantity_abs == b.quantity_abs
+                && a.quantity_abs_max == b.quantity_abs_max
+                && a.pnl_unrealised == b.pnl_unrealised
+                && a.pnl_realised == b.pnl_realised
+                && a.fees_enter == b.fees_enter
+                && a.fees_exit == b.fees_exit
+                && a.time_enter == b.time_enter
+                && a.time_exchange_update == b.time_exchange_update
+                && a.trades == b.trades
+        }
+        _ => false,
+    }
+}
+fn same_exit<A, B>(a: &Option<PositionExited<QuoteAsset, A>>, b: &Option<PositionExited<QuoteAsset, B>>) -> bool {
+    match (a, b) {
+        (None, None) => true,
+        (Some(a), Some(b)) => {
+            a.side == b.side
+                && a.price_entry_average == b.price_entry_average
+                && a.quantity_abs_max == b.quantity_abs_max
+                && a.pnl_realised == b.pnl_realised
+                && a.fees_enter == b.fees_enter
+                && a.fees_exit == b.fees_exit
+                && a.time_enter == b.time_enter
+                && a.time_exit == b.time_exit
+                && a.trades == b.trades
+        }
+        _ => false,
+    }
 }
 
 /// what happened at one fill, as seen from outside (for the evidence's branch distribution)
@@ -257,12 +314,17 @@ fn classify(
     )
 }
 
-fn run_case(fills: &[F], ik: Ik) -> (String, Vec<String>) {
+fn run_case(fills: &[F], ik: Ik, restores: &[bool]) -> (String, Vec<String>) {
     let mut tags = vec![ik.tag()];
+    let mut rt_ok = true;
+    let restore_at = |k: usize| restores.get(k).copied().unwrap_or(false);
     // path 1: PositionManager directly; a panic ends the observation list early
     let mut pm: PositionManager<InstrumentIndex> = PositionManager::default();
     let mut obs = vec![];
-    for f in fills {
+    // the same fills on a PositionManager keyed by instrument NAME, with the same restore steps
+    let mut pm_name: PositionManager<InstrumentNameInternal> = PositionManager::default();
+    let mut agrees = true;
+    for (k, f) in fills.iter().enumerate() {
         let before = pm.current.clone();
         let t = f.trade();
         let mut pm2 = pm.clone();
@@ -279,6 +341,28 @@ fn run_case(fills: &[F], ik: Ik) -> (String, Vec<String>) {
                     opt(pm.current.as_ref().map(coq_pos)),
                     opt(x.as_ref().map(coq_exit))
                 ));
+                let t = f.trade();
+                let tn = Trade {
+                    id: t.id.clone(),
+                    order_id: t.order_id.clone(),
+                    instrument: InstrumentNameInternal::new(format!("instrument_{}", f.inst)),
+                    strategy: t.strategy.clone(),
+                    time_exchange: t.time_exchange,
+                    side: t.side,
+                    price: t.price,
+                    quantity: t.quantity,
+                    fees: t.fees.clone(),
+                };
+                let xn = pm_name.update_from_trade(&tn);
+                agrees &= same_exit(&x, &xn) && same_position(&pm.current, &pm_name.current);
+                if restore_at(k) {
+                    tags.push(if pm.current.is_some() { "restore_with_open_position" } else { "restore_flat" }.to_string());
+                    let (r1, ok1) = round_trip(&pm);
+                    pm = r1;
+                    let (r2, ok2) = round_trip(&pm_name);
+                    pm_name = r2;
+                    rt_ok &= ok1 && ok2;
+                }
             }
             Err(_) => {
                 tags.push("panic".to_string());
@@ -291,7 +375,6 @@ fn run_case(fills: &[F], ik: Ik) -> (String, Vec<String>) {
     // outside this property, the comparison then stops at that fill and no tear sheet is reported.
     let mut st = new_instrument_state(fills.first().map(|f| f.inst).unwrap_or(0), ik);
     let mut pm2: PositionManager<InstrumentIndex> = PositionManager::default();
-    let mut agrees = true;
     let mut ts_ok = true;
     for (k, f) in fills.iter().enumerate() {
         if k >= obs.len() {
@@ -307,6 +390,11 @@ fn run_case(fills: &[F], ik: Ik) -> (String, Vec<String>) {
             Ok((st2, x2)) => {
                 st = st2;
                 agrees &= x1 == x2 && pm2.current == st.position.current;
+                if restore_at(k) {
+                    let (r, ok) = round_trip(&st);
+                    st = r;
+                    rt_ok &= ok;
+                }
             }
             Err(_) => {
                 tags.push("tear_sheet_statistics_panicked".to_string());
@@ -330,29 +418,39 @@ fn run_case(fills: &[F], ik: Ik) -> (String, Vec<String>) {
         list(&obs),
         b(agrees),
         ts,
-        ik.coq()
+        ik.coq_meta(restores, rt_ok)
     );
+    if !rt_ok {
+        tags.push("roundtrip_changed".to_string());
+    }
     (coq, tags)
 }
 
-fn emit(em: &mut Emitter, stream: &'static str, fills: &[F], ik: Ik) {
+fn emit(em: &mut Emitter, stream: &'static str, fills: &[F], ik: Ik, restores: &[bool]) {
     // a panic anywhere in the case (outside the per-fill catch) must not take the harness down:
     // report an empty observation list, which neither corr_b nor prop_b accept
     let fills2 = fills.to_vec();
-    let (coq, tags) = match catch(move || run_case(&fills2, ik)) {
+    let restores2 = restores.to_vec();
+    let (coq, tags) = match catch(move || run_case(&fills2, ik, &restores2)) {
         Ok(x) => x,
         Err(msg) => (
             format!(
                 "(CFills {} [] false None {})",
                 list(&fills.iter().map(|f| f.coq()).collect::<Vec<_>>()),
-                ik.coq()
+                ik.coq_meta(restores, false)
             ),
             vec![format!("panic:{}", msg.chars().take(60).collect::<String>())],
         ),
     };
     em.emit(Case {
         stream,
-        input: json!({"fills": fills.iter().map(|f| f.to_json()).collect::<Vec<_>>(), "instrument": ik.to_json()}),
+        input: json!({"fills": fills.iter().enumerate().map(|(k, f)| {
+            let mut j = f.to_json();
+            if restores.get(k).copied().unwrap_or(false) {
+                j["restore_after"] = json!(true);
+            }
+            j
+        }).collect::<Vec<_>>(), "instrument": ik.to_json()}),
         coq,
         nontrivial: fills.len() >= 2,
         tags,
@@ -450,6 +548,12 @@ fn gen_history(r: &mut Rng, max_len: u64, adv: bool) -> Vec<F> {
 /// prior state (none / long / short, each fresh, after an increase, after a reduction, after
 /// increase+reduction) x fill side x quantity relation (less / equal / more than open) x fee
 /// (0 / >0) x price (below / at / above entry).
+/// persist / restore points: none in a third of the histories, after ~1 fill in 4 otherwise
+fn gen_restores(r: &mut Rng, len: usize) -> Vec<bool> {
+    let none = r.chance(1, 3);
+    (0..len).map(|_| !none && r.chance(1, 4)).collect()
+}
+
 fn gen_ik(r: &mut Rng) -> Ik {
     let kind = r.below(4);
     let sizes = [mk_dec(1, 0), mk_dec(1, 3), mk_dec(1, 2), mk_dec(100, 0)];
@@ -506,7 +610,9 @@ fn table(em: &mut Emitter) {
                         });
                         let ik = iks[case_no % iks.len()];
                         case_no += 1;
-                        emit(em, "table", &fills, ik);
+                        // persist / restore after every prefix in two cases out of three
+                        let restores: Vec<bool> = fills.iter().map(|_| case_no % 3 != 0).collect();
+                        emit(em, "table", &fills, ik, &restores);
                     }
                 }
             }
@@ -522,26 +628,29 @@ fn main() {
         "gen" => {
             let mut r = Rng::new(args.seed);
             let (n_rand, n_adv, max_len) = if args.tier == "thorough" {
-                (3000, 1000, 100)
+                (2000, 700, 80)
             } else {
-                (500, 150, 30)
+                (400, 120, 30)
             };
             table(&mut em);
             for _ in 0..n_rand {
                 let fills = gen_history(&mut r, max_len, false);
                 let ik = gen_ik(&mut r);
-                emit(&mut em, "random", &fills, ik);
+                let restores = gen_restores(&mut r, fills.len());
+                emit(&mut em, "random", &fills, ik, &restores);
             }
             for _ in 0..n_adv {
                 let fills = gen_history(&mut r, max_len, true);
                 let ik = gen_ik(&mut r);
-                emit(&mut em, "adversarial", &fills, ik);
+                let restores = gen_restores(&mut r, fills.len());
+                emit(&mut em, "adversarial", &fills, ik, &restores);
             }
         }
         "exec" => {
             for (inp, stream) in read_inputs(args.input.as_deref().expect("--in")) {
                 let fills: Vec<F> = inp["fills"].as_array().unwrap().iter().map(F::from_json).collect();
-                emit(&mut em, stream_static(&stream), &fills, Ik::from_json(&inp["instrument"]));
+                let restores: Vec<bool> = inp["fills"].as_array().unwrap().iter().map(|f| f["restore_after"].as_bool().unwrap_or(false)).collect();
+                emit(&mut em, stream_static(&stream), &fills, Ik::from_json(&inp["instrument"]), &restores);
             }
         }
         m => panic!("unknown mode {m}"),
